@@ -193,6 +193,25 @@ pub fn run(ctx: &Ctx) -> i32 {
             }
             let failing = step > 0 && rng.chance(1, 5);
             let mut args: Vec<String> = path_args.clone();
+            if !failing && rng.chance(1, 3) {
+                // a valid configuration file that lives in another directory than the working directory
+                let all_o: Vec<String> = crate::mon::c11::OPTS.iter().map(|s| s.to_string()).collect();
+                let all_v: Vec<String> = crate::mon::c11::VULNS.iter().map(|s| s.to_string()).collect();
+                let all_q: Vec<String> = crate::mon::c11::QAS.iter().map(|s| s.to_string()).collect();
+                std::fs::create_dir_all(format!("{}/cfgdir", base)).unwrap();
+                // the toml's own path entry points at the analysed tree (absolute), so that it is harmless whether or not --path is given
+                std::fs::write(format!("{}/cfgdir/ok.toml", base), toml_text(Some(&tree), &all_o, &all_v, &all_q)).unwrap();
+                args.push("--toml".into());
+                args.push(if rng.chance(1, 2) { format!("{}/cfgdir/ok.toml", base) } else { "../cfgdir/ok.toml".to_string() });
+                if cwd_kind == 0 || cwd_kind == 3 {
+                    acc.cov("toml-in-another-directory");
+                } else {
+                    // relative spelling only resolves from directories one level below base; use the absolute one there
+                    let l = args.len();
+                    args[l - 1] = format!("{}/cfgdir/ok.toml", base);
+                    acc.cov("toml-in-another-directory");
+                }
+            }
             if failing {
                 std::fs::write(format!("{}/bad.toml", base), toml_text(None, &["no_such_pattern".to_string()], &[], &[])).unwrap();
                 args.push("--toml".into());
